@@ -120,7 +120,7 @@ def gen_data(rng, schema):
     return full
 
 
-LEVELS = ["root", "pkg", "ifaceA", "cfgA1", "ifaceB"]
+LEVELS = ["root", "pkg", "ifaceA", "cfgA0", "cfgA1", "ifaceB"]   # cfgA0 / cfgA1: the two configs entries of interface A (one output file)
 
 
 def gen_case(rng, i):
@@ -148,7 +148,7 @@ def gen_case(rng, i):
             levels["ifaceB"][k] = v
         else:
             levels[where][k] = v
-    brk = rng.choice(["none", "none", "root", "pkg", "ifaceA", "cfgA1", "ifaceB"])
+    brk = rng.choice(["none", "none", "root", "pkg", "ifaceA", "cfgA0", "cfgA1", "ifaceB"])
     if brk != "none":
         how = rng.choice(["unknown-key", "wrong-type", "drop-required", "lookalike-type"])
         if how == "lookalike-type":
@@ -253,6 +253,8 @@ def eval_single(ctx, case):
         pa["config"]["template-data"] = lv["pkg"]
     if lv["ifaceA"]:
         pa["interfaces"]["A"]["config"]["template-data"] = lv["ifaceA"]
+    if lv.get("cfgA0"):
+        pa["interfaces"]["A"]["configs"][0]["template-data"] = lv["cfgA0"]
     if lv["cfgA1"]:
         pa["interfaces"]["A"]["configs"][1]["template-data"] = lv["cfgA1"]
     if lv["ifaceB"]:
@@ -512,7 +514,7 @@ def body(ctx, replay=None):
             j = 0
             for t in ("testify", "matryer"):
                 for rl in ("root", "pkg", "iface"):
-                    for brk in ("none", "root", "pkg", "ifaceA", "cfgA1", "ifaceB"):
+                    for brk in ("none", "root", "pkg", "ifaceA", "cfgA0", "cfgA1", "ifaceB"):
                         lv = {l: {} for l in LEVELS}
                         lv["root"] = {"boilerplate-file": ""} if False else {}
                         c = {"kind": "single", "i": 30000 + j, "tkind": t, "seed": 7 + j, "schema_state": "builtin", "schema": BUILTIN_SCHEMA[t], "require": False, "require_level": rl, "levels": lv}
